@@ -20,13 +20,16 @@ RULE = ("sequences of registry operations (register / subscribe / subscribe_only
         "notify_subscribers / kill_resource / deregister / get_subscribers / get_subscriptions / consumer "
         "get_nowait[+task_done] on any queue object ever handed out) from the empty registry: random sequences "
         "of length <= 40 over 4 resources biased towards repeated ops, cycle-closing subscriptions and "
-        "notify-after-kill, plus exhaustive short sequences over 3 resources; every prefix is compared; "
+        "notify-after-kill, own bounded queues (capacity 1-2) with bursts that fill them and kill/deregister while full, "
+        "plus exhaustive short sequences over 3 resources; every prefix is compared; "
         "a sequence is non-trivial when it creates a subscription edge and delivers or refuses something; "
         "distinct by content")
 ASSUMPTIONS = [
-    "register is called without an explicit queue (every resource gets its own fresh LifoQueue, as koreo.cache does)",
+    "a queue passed to register(resource, queue=...) is a fresh asyncio.LifoQueue used for that one resource (capacity 0 = the "
+    "default queue register creates itself); one queue object is never shared between resources",
     "consumers call task_done at most once per item they took from a queue (as koreo.cache._monitor_and_reprepare does)",
-    "asyncio.LifoQueue (CPython 3.13): unbounded; put_nowait appends and raises QueueShutDown after shutdown(); "
+    "asyncio.LifoQueue (CPython 3.13): put_nowait raises QueueShutDown after shutdown(), else QueueFull when maxsize > 0 and "
+    "qsize() >= maxsize, else appends; "
     "get_nowait pops the last item and raises QueueShutDown when empty and shut down, QueueEmpty when empty; "
     "task_done raises ValueError when no task is unfinished",
     "a defaultdict key holding an empty set is indistinguishable from an absent key (checked: get_subscribers / "
